@@ -38,8 +38,7 @@ use crate::filter_pushdown::{
 use crate::limit::LocalLimitExec;
 use crate::metrics::{MetricBuilder, MetricType};
 use crate::projection::{
-    EmbeddedProjection, ProjectionExec, ProjectionExpr, make_with_child,
-    try_embed_projection, update_expr,
+    EmbeddedProjection, ProjectionExec, ProjectionExpr, try_embed_projection, update_expr,
 };
 use crate::statistics::{ChildStats, StatisticsArgs, StatisticsContext};
 use crate::stream::EmptyRecordBatchStream;
@@ -55,7 +54,9 @@ use arrow::record_batch::RecordBatch;
 use datafusion_common::cast::as_boolean_array;
 use datafusion_common::config::ConfigOptions;
 use datafusion_common::stats::Precision;
-use datafusion_common::tree_node::TreeNodeRecursion;
+use datafusion_common::tree_node::{
+    Transformed, TransformedResult, TreeNode, TreeNodeRecursion,
+};
 use datafusion_common::{
     DataFusionError, Result, ScalarValue, internal_err, plan_err, project_schema,
 };
@@ -666,12 +667,42 @@ impl ExecutionPlan for FilterExec {
     ) -> Result<Option<Arc<dyn ExecutionPlan>>> {
         // If the projection does not narrow the schema, we should not try to push it down:
         if projection.expr().len() < projection.input().schema().fields().len() {
+            // `projection` is written against the output of this filter. When the filter
+            // carries an embedded projection that output is a selection of the input
+            // columns, while the predicate and `self.input()` use the input schema:
+            // express the projection in terms of the input before swapping.
+            let exprs: Vec<ProjectionExpr> = match self.projection.as_ref() {
+                None => projection.expr().to_vec(),
+                Some(embedded) => {
+                    let input_schema = self.input.schema();
+                    projection
+                        .expr()
+                        .iter()
+                        .map(|proj_expr| {
+                            let expr = Arc::clone(&proj_expr.expr)
+                                .transform(|e| match e.downcast_ref::<Column>() {
+                                    Some(col) => {
+                                        let idx = embedded[col.index()];
+                                        let name = input_schema.field(idx).name();
+                                        Ok(Transformed::yes(Arc::new(Column::new(
+                                            name, idx,
+                                        ))
+                                            as _))
+                                    }
+                                    None => Ok(Transformed::no(e)),
+                                })
+                                .data()?;
+                            Ok(ProjectionExpr::new(expr, proj_expr.alias.clone()))
+                        })
+                        .collect::<Result<_>>()?
+                }
+            };
             // Each column in the predicate expression must exist after the projection.
-            if let Some(new_predicate) =
-                update_expr(self.predicate(), projection.expr(), false)?
-            {
+            if let Some(new_predicate) = update_expr(self.predicate(), &exprs, false)? {
+                let new_input: Arc<dyn ExecutionPlan> =
+                    Arc::new(ProjectionExec::try_new(exprs, Arc::clone(self.input()))?);
                 return FilterExecBuilder::from(self)
-                    .with_input(make_with_child(projection, self.input())?)
+                    .with_input(new_input)
                     .with_predicate(new_predicate)
                     // The original FilterExec projection referenced columns from its old
                     // input. After the swap the new input is the ProjectionExec which
